@@ -286,7 +286,24 @@ def run_partition(ck, mons, seed, name, k, dpd, dt, noise=False):
     t_gone = {}
     junk = bytes(8) + b'\x11' * 8 + bytes([46, 0x20, 37, 0x08]) + (7).to_bytes(4, 'big') + (28).to_bytes(4, 'big')
     while sim.clock.t < T + bound + 2 * dt:
-        if noise:
+        if noise == 'forged-with-the-spis':
+            # the peer is dead, but somebody who saw the SPIs on the wire keeps sending well-formed CLEARTEXT datagrams that carry them (from the peer's address,
+            # with the role flag and Message IDs the peer would use). Nothing authentic arrives: the probe comes on time and the clean-up within the bound
+            sim.case['actions'].append(('forged-tick', dt))
+            sim.clock.advance(dt)
+            for e in sim.eps.values():
+                sas = list(e.ctl.ike_sas)
+                if not sas:
+                    e.step('tick')
+                    continue
+                sa_ = sas[int(sim.clock.t * 4) % len(sas)]
+                kind_ = int(sim.clock.t / dt) % 3
+                hdr_ = {'spi_i': bytes(sa_.spi_i), 'spi_r': bytes(sa_.spi_r), 'major': 2, 'minor': 0, 'exch': (37, 37, 34)[kind_],
+                        'flags': (0 if sa_.is_initiator else 0x08) | (0x20 if kind_ else 0), 'mid': (sa_.peer_msg_id, sa_.my_msg_id, 0)[kind_], 'payloads': []}
+                from vf.ref import codec as codec_
+                ck.count('partition.forged_cleartext_datagrams_with_the_spis')
+                e.step('udp', udp=(str(sa_.peer_addr), str(sa_.my_addr), codec_.encode_clear(hdr_)))
+        elif noise:
             # the network is not quiet: every iteration of both daemons is woken by an event (a datagram for an unknown SPI, or a kernel
             # message of a type they do not handle); the timers still have to run
             sim.case['actions'].append(('noisy-tick', dt))
@@ -534,7 +551,18 @@ def run(ck):
             for k in range(1, steps + 1):
                 n += 1
                 if ck.mine(n):
-                    run_partition(ck, mk(), base + 7 * n, name, k, dpd, dt, noise=bool((k + len(name)) % 2))
+                    if (k + n // 8) % 4 == 3:
+                        # both ends happen to choose the same SPI values (legal: the kernel names an SA by destination, protocol and SPI)
+                        from vf.checks import c10 as c10_
+                        real_os = S.r_ikesa.os
+                        S.r_ikesa.os = c10_._EqualSpis(real_os)
+                        ck.count('partition.runs_with_equal_spi_values_at_both_ends')
+                        try:
+                            run_partition(ck, mk(), base + 7 * n, name, k, dpd, dt, noise=(False, True, 'forged-with-the-spis')[(k + len(name)) % 3])
+                        finally:
+                            S.r_ikesa.os = real_os
+                        continue
+                    run_partition(ck, mk(), base + 7 * n, name, k, dpd, dt, noise=(False, True, 'forged-with-the-spis')[(k + len(name)) % 3])
     # (4) idle runs
     for dpd, lifetime, dt in ((5, 20, 1.0), (60, 20, 1.0), (5, 100, 2.0), (60, 100, 2.5), (7, 20, 0.5)):
         n += 1
@@ -581,6 +609,8 @@ def run(ck):
 
 def verdict(ck):
     c = ck.counters
+    ck.floor('partition runs in which both ends chose equal SPI values', c['partition.runs_with_equal_spi_values_at_both_ends'], 20)
+    ck.floor('forged cleartext datagrams carrying the SPIs of an IKE_SA whose peer is dead', c['partition.forged_cleartext_datagrams_with_the_spis'], 300)
     ck.floor('lost-subset runs', c['lost.runs'], 300)
     ck.floor('runs with every transmission lost', c['lost.all_lost'], 50)
     ck.floor('retransmissions observed', sum(v for k, v in c.items() if k.startswith('tm.retransmission.')), 1000)
